@@ -40,6 +40,7 @@ def cases(draw, with_crashes=True):
     prog = draw(G.programs(max_stmts=6))
     return {
         "prog": prog,
+        "limits": draw(st.sampled_from([{}, {}, {}, {"checkpoint": 300}, {"checkpoint": 120}])),
         "backend": draw(G.backend_cfgs()),
         "plan": {"crashes": draw(G.crash_plans()) if with_crashes else []},
         "sched": draw(G.schedules()),
